@@ -87,6 +87,9 @@ def extra_terms():
         field = {"String": s, "Integer": n, "Float": typed.F("x"), "Boolean": typed.F("b")}.get(kind, typed.F("d"))
         out += [("literal:" + kind, T.binop("Eq", field, lit)), ("literal:" + kind, T.binop("NotEq", lit, field)),
                 ("literal:" + kind, T.binop("In", field, T.lst(lit, lit))), ("literal:" + kind, T.binop("Or", T.binop("Eq", field, lit), T.binop("Eq", n, T.Int(1))))]
+    # a duration without any component (the lexer accepts `duration'P'` and `duration'PT'`): a value is missing, not zero
+    out += [("literal:Duration", T.binop("Gt", typed.F("d"), T.binop("Add", typed.F("d"), ("Duration", "P")))), ("literal:Duration", T.binop("Eq", typed.F("d"), T.binop("Sub", typed.F("d"), ("Duration", "PT")))),
+            ("literal:Duration", T.binop("Gt", typed.F("d"), ("Duration", "P"))), ("literal:Duration", T.binop("Gt", typed.F("d"), ("Duration", "-P")))]
     out += [("literal:Duration", T.binop("Gt", typed.F("d"), T.binop("Sub", T.call("now"), ("Duration", "P1Y2M3DT4H5M6.5S")))),
             ("bare-bool", typed.F("b")), ("bare-bool", T.unop("Not", typed.F("b"))), ("bare-bool", T.binop("And", typed.F("b"), T.binop("Eq", n, T.Int(1)))),
             ("neg", T.binop("Eq", T.unop("USub", n), T.Int(1))), ("neg", T.binop("Eq", T.unop("USub", T.binop("Add", n, T.Int(1))), T.Int(1))),
@@ -207,6 +210,8 @@ def run_backend(backend, kind, term, root_kind):
                 tu, leaves = C09.uniquify(term)
             except KeyError:
                 tu, leaves = None, None
+            if kind.startswith(("literal", "overflow")):
+                tu, leaves = None, None       # the literal's own spelling is the point: do not replace it by a unique token
             if tu is not None:
                 sql = SQLD[backend]().visit(_ps.parse(_lx.tokenize(to_odata(tu))))
                 if not isinstance(sql, str):
@@ -261,6 +266,17 @@ def run_backend(backend, kind, term, root_kind):
                 stmt = apply_odata_core(sa.select(M.__table__), text_l)
             c = stmt.compile(dialect=sa_sqlite.dialect())
             hay = c.string + " " + " ".join(repr(p) for p in c.params.values())
+            if root_kind == "scalar":
+                # every bound parameter must be a value the driver can bind (a Python list or an expression object among the
+                # parameters means a part of the filter was not translated); engine-level errors (unknown function ...) are not judged here
+                try:
+                    with sa_h.engine().connect() as conn:
+                        conn.execute(stmt.limit(1)).fetchall()
+                except sa.exc.DBAPIError as e:
+                    if "binding parameter" in str(e) or "is not supported" in str(e):
+                        return "incomplete", "driver cannot bind a parameter: %s" % str(e)[:160].replace("\n", " ")
+                except Exception:  # noqa
+                    pass
         if any(st[0] == "BoolOp" and (st[2][0] == "Boolean" or st[3][0] == "Boolean") for st in T.subterms(term)):
             return "complete", "constant and/or operand: the ORM may short-circuit, presence not required"
         if backend == "sa-orm" and root_kind == "relational":
